@@ -183,8 +183,18 @@ type g9ReaderUse struct {
 // g9ReaderUses enumerates the bufio.Reader method calls made on rd in fn and in the same-package
 // helpers rd is passed to (static calls, parameter bound to the argument), depth <= g9MaxDepth.
 func g9ReaderUses(fn *ssa.Function, rd ssa.Value, chain []ssa.CallInstruction, visit func(u g9ReaderUse)) {
+	g9ReaderUsesIn(fn, rd, chain, visit, map[ssa.Value]bool{})
+}
+
+// g9ReaderUsesIn: busy holds the values already followed as carriers of the reader (ip_h3.go).
+func g9ReaderUsesIn(fn *ssa.Function, rd ssa.Value, chain []ssa.CallInstruction, visit func(u g9ReaderUse), busy map[ssa.Value]bool) {
 	seen := map[ssa.Instruction]bool{}
 	for _, v := range g9Aliases(rd) {
+		// the reader kept in a field of a struct: the loads of that field, wherever the struct
+		// travels within the package, are the reader again (ip_h3.go)
+		h3CarriedUses(fn, v, chain, visit, func(g *ssa.Function, r ssa.Value, sub []ssa.CallInstruction) {
+			g9ReaderUsesIn(g, r, sub, visit, busy)
+		}, busy)
 		// the reader as such and wrapped in an interface value (io.Reader arguments)
 		carriers := []ssa.Value{v}
 		for i := 0; i < len(carriers) && i < 8; i++ {
@@ -251,7 +261,7 @@ func g9ReaderUses(fn *ssa.Function, rd ssa.Value, chain []ssa.CallInstruction, v
 				for i, a := range com.Args {
 					if is(a) {
 						sub := append(append([]ssa.CallInstruction(nil), chain...), ci)
-						g9ReaderUses(h, h.Params[i], sub, visit)
+						g9ReaderUsesIn(h, h.Params[i], sub, visit, busy)
 					}
 				}
 			}
